@@ -7,10 +7,30 @@ open Driver ScionTime.Provider
   prov.cur <t>                     -> ok <id> <nb> <na>       Current() at t
   prov.get <id> <t>                -> ok <id> <nb> <na> | ok none
   prov.par <t> (c | g:<id>)+       -> ok <ans> | <ans> | …    calls at the same instant t
+ users of the provider (Model/Provider.lean `Use`; the harness runs the real newNTSKEMsg and the
+ real IP listeners of core/server under the virtual clock):
+  use.new <t>                      -> ok                      NewProvider() at t (+ listeners)
+  use.ke <t>                       -> ok key=<id> <nb> <na> n=8          newNTSKEMsg at t
+  use.ntp <lsn> <i>.<j> <ph> <t1> <t2>                        an NTS request carrying cookie j of
+        issue i (issues = successful use.ke / use.ntp in order, from 0) and ph placeholders, received by
+        listener lsn at t1 (Get) and answered at t2 (Current)
+                                   -> ok open=<id> <nb> <na> key=<id> <nb> <na> n=<ph+1>
+                                    | ok open=<id> none drop no-key
 -/
 structure St where
   s : Option State
   last : Int
+  issues : List (Int × Nat) := []   -- key id and number of cookies of every issue so far
+
+/-- cookies in a key exchange answer (`for range 8` in newNTSKEMsg). -/
+def keCookies : Nat := 8
+
+def parseRef (tok : String) : Option (Nat × Nat) :=
+  match tok.splitOn "." with
+  | [a, b] => match a.toNat?, b.toNat? with
+    | some a, some b => some (a, b)
+    | _, _ => none
+  | _ => none
 
 def fmtKey (k : Key) : String := s!"{k.id} {k.nb} {k.na}"
 
@@ -41,7 +61,7 @@ def stepD (st : St) (toks : List String) : St × String :=
     | some s, some t =>
       if st.last ≤ t then
         let r := current std s t t
-        ({ s := some r.1, last := t }, "ok " ++ fmtKey r.2)
+        ({ st with s := some r.1, last := t }, "ok " ++ fmtKey r.2)
       else (st, "bad-op")
     | _, _ => (st, "bad-op")
   | ["prov.get", id, t] =>
@@ -55,9 +75,40 @@ def stepD (st : St) (toks : List String) : St × String :=
     | some s, some t, some ops =>
       if st.last ≤ t ∧ ops ≠ [] then
         let r := runOps s ops
-        ({ s := some r.1, last := t }, "ok " ++ " | ".intercalate r.2)
+        ({ st with s := some r.1, last := t }, "ok " ++ " | ".intercalate r.2)
       else (st, "bad-op")
     | _, _, _ => (st, "bad-op")
+  | ["use.new", t] =>
+    match parseInt? t with
+    | some t => if 0 ≤ t then ({ s := some (init std t), last := t }, "ok") else (st, "bad-op")
+    | none => (st, "bad-op")
+  | ["use.ke", t] =>
+    match st.s, parseInt? t with
+    | some s, some t =>
+      if st.last ≤ t then
+        let r := useStep std s (.ke t t)
+        match r.2.sealedWith with
+        | some k =>
+          ({ s := some r.1, last := t, issues := st.issues ++ [(k.id, keCookies)] },
+            s!"ok key={fmtKey k} n={keCookies}")
+        | none => (st, "bad-op")
+      else (st, "bad-op")
+    | _, _ => (st, "bad-op")
+  | ["use.ntp", lsn, ref, ph, t1, t2] =>
+    match st.s, lsn.toNat?, parseRef ref, ph.toNat?, parseInt? t1, parseInt? t2 with
+    | some s, some _, some (i, j), some ph, some t1, some t2 =>
+      match st.issues[i]? with
+      | some (id, n) =>
+        if j < n ∧ ph ≤ 6 ∧ st.last ≤ t1 ∧ t1 ≤ t2 then
+          let r := useStep std s (.ntp id t1 true t2 t2)
+          match r.2.opened, r.2.sealedWith with
+          | some ko, some k =>
+            ({ s := some r.1, last := t2, issues := st.issues ++ [(k.id, ph + 1)] },
+              s!"ok open={fmtKey ko} key={fmtKey k} n={ph + 1}")
+          | _, _ => ({ st with s := some r.1, last := t1 }, s!"ok open={id} none drop no-key")
+        else (st, "bad-op")
+      | none => (st, "bad-op")
+    | _, _, _, _, _, _ => (st, "bad-op")
   | _ => (st, "bad-op")
 
-def main : IO Unit := run ({ s := none, last := 0 } : St) stepD
+def main : IO Unit := run ({ s := none, last := 0, issues := [] } : St) stepD
